@@ -19,9 +19,11 @@ var AverageRequired = AveragePeriod / 2 // If we have at least half the rates, w
 // Also note that if asked twice about the same height, we cache the response.
 func (d *Pegnetd) GetPegNetRateAverages(ctx context.Context, height uint32) (Avg interface{}) {
 
+	verifGate("avg:enter")
 	if d.LastAveragesHeight == height { //                      If a cache hit is detected, return the cache value
 		return d.LastAverages
 	}
+	verifGate("avg:miss")
 
 	ratesOverPeriod := d.LastAveragesData //                    First collect all the values over the blocks
 	averages := map[fat2.PTicker]uint64{} //                      in the average period, then compute the averages
@@ -30,6 +32,7 @@ func (d *Pegnetd) GetPegNetRateAverages(ctx context.Context, height uint32) (Avg
 	}
 
 	defer func() { //                                           Always set up the cache when exiting the routine
+		verifGate("avg:publish")
 		d.LastAveragesData = ratesOverPeriod //                   Save the data we used to create averages
 		d.LastAveragesHeight = height        //                   Save the height of this data
 		d.LastAverages = averages            //                   Save the averages we computed
@@ -84,6 +87,7 @@ func (d *Pegnetd) GetPegNetRateAverages(ctx context.Context, height uint32) (Avg
 		collectRatesAtHeight(height) //                         Add the current height to the dataset so far
 	}
 
+	verifGate("avg:collected")
 	for k, v := range ratesOverPeriod { //                        The average rate is zero for any asset without
 		averages[k] = 0                                       //    the number of required rates
 		if AveragePeriod-numberMissing(v) < AverageRequired { //  Count the missing values, and if not enough
